@@ -6,5 +6,7 @@ CONSTANTS MaxN = 4
           K = 16
           C = 8
           ZeroFill = FALSE
-INVARIANTS NoFabrication WithinInput BoundedAlloc PrefixFails
+          TagCodes = {0, 1}
+          LenientTags = FALSE
+INVARIANTS NoFabrication WithinInput BoundedAlloc TagsKnown PrefixFails
 CHECK_DEADLOCK FALSE
